@@ -213,6 +213,34 @@ func c07Gen(r *Rand, tier string, emit func(op any)) {
 			}
 		}
 	}
+	// 1b. slog handlers: a chain of d pending groups, then two siblings derived from its end, used in both orders
+	//     (slice capacities 0,1,2,4,8 are crossed by d = 0…9); the same for chains of With on loggers over observers
+	for d := 0; d <= 9; d++ {
+		for _, first := range []int{0, 1} {
+			steps := []c07Step{{S: "shandler", P: 0}} // node 1
+			for i := 0; i < d; i++ {
+				steps = append(steps, c07Step{S: "sgroup", P: 1 + i, G: 300 + i})
+			}
+			par := 1 + d
+			steps = append(steps, c07Step{S: "sgroup", P: par, G: 401}, c07Step{S: "sgroup", P: par, G: 402}) // nodes par+1, par+2
+			a, b := par+1+first, par+2-first
+			for _, node := range []int{a, b, a, par, b} {
+				steps = append(steps, c07Step{S: "slog", P: node, L: 1, Fs: []fldJ{{Key: 500 + node, Kind: 2, Val: node, Ref: -1}}})
+			}
+			emit(c07Op{K: "prog", Tree: root, Atomics: []int{}, Cells: []int{}, Steps: steps})
+
+			steps = []c07Step{}
+			for i := 0; i < d; i++ {
+				steps = append(steps, c07Step{S: "with", P: i, Fs: []fldJ{{Key: 600 + i, Ref: -1}}})
+			}
+			steps = append(steps, c07Step{S: "with", P: d, Fs: []fldJ{{Key: 701, Ref: -1}}}, c07Step{S: "with", P: d, Fs: []fldJ{{Key: 702, Ref: -1}}})
+			a, b = d+1+first, d+2-first
+			for _, node := range []int{a, b, a, d, b, a} { // repeated use with different call-site fields
+				steps = append(steps, c07Step{S: "log", P: node, L: 2, Fs: []fldJ{{Key: 800 + len(steps), Ref: -1}, {Key: 850 + len(steps), Kind: 2, Val: len(steps), Ref: -1}}})
+			}
+			emit(c07Op{K: "prog", Tree: root, Atomics: []int{}, Cells: []int{}, Steps: steps})
+		}
+	}
 	// 2. random derivation programs
 	n, maxNodes := 1200, 40
 	if thorough {
@@ -314,6 +342,7 @@ func c07Exec(raw json.RawMessage) Result {
 	var op c07Op
 	unmarshal(raw, &op)
 	w := newWorld(op.Atomics, op.Cells)
+	w.consoleMod4 = true
 	core := w.build(&op.Tree)
 	w.rec.take()
 	root := zap.New(core, zap.WithPanicHook(spyTerm{"panic", w.rec}), zap.WithFatalHook(spyTerm{"fatal", w.rec}))
@@ -572,6 +601,9 @@ func c07Exec(raw json.RawMessage) Result {
 			check(si, opar, st.L, call, seq, obs)
 			relogged++
 		}
+	}
+	if leaf, was, now, same := w.recheckKept(); !same {
+		fail(bad("C07:recorded-entry-changed", "an entry recorded by observer leaf %d read %q when it was logged and reads %q after later calls", leaf, was, now))
 	}
 	depth, kinds := treeStats(&op.Tree)
 	_ = depth
